@@ -421,7 +421,7 @@ func ruleDemuxWriter(c *Ctx, rule string) {
 	_, cw := p.rwClosures(p.MustFn("goat.NewGoatOverChannel"))
 	for _, u := range p.chanUsesIn(cw) {
 		if u.kind == "send" {
-			c.check(rule, "chan.write:hands-the-envelope-itself", p.sameValue(sendOf(u), cw.Params[1]), "the channel transport hands over the envelope pointer itself", p.ipos(u.instr))
+			c.check(rule, "chan.write:hands-the-envelope-itself", p.sameValue(sendOf(u), paramOfType(cw, "pb.Rpc")), "the channel transport hands over the envelope pointer itself", p.ipos(u.instr))
 		}
 	}
 }
